@@ -124,7 +124,7 @@ func (c *Check) Execute(t Tier) int {
 	var all []Violation
 	var scen []Stats
 	states, trans, replayed, evals := 0, 0, 0, 0
-	unconfirmed := 0
+	unconfirmed, mismatches := 0, 0
 	exhaustive := true
 	var samples []any
 	outcomes := map[string]int{}
@@ -138,6 +138,7 @@ func (c *Check) Execute(t Tier) int {
 		replayed += st.Replayed
 		evals += st.OracleEvals
 		exhaustive = exhaustive && st.Exhaustive
+		mismatches += st.ConformanceMismatches
 		for _, p := range st.Samples {
 			samples = append(samples, map[string]any{"scenario": st.Scenario, "path": p})
 		}
@@ -218,11 +219,12 @@ func (c *Check) Execute(t Tier) int {
 	sort.Strings(kf)
 	ev.Coverage["known_findings_hit"] = kf
 	ev.Coverage["unconfirmed_discrepancies"] = unconfirmed
-	if unconfirmed > 0 && len(all) == 0 {
+	ev.Coverage["conformance_mismatches"] = mismatches
+	if (unconfirmed > 0 || mismatches > 0) && nviol == 0 {
 		// nothing reproducible was found, but the exploration saw behaviour that a fresh application does
 		// not show: the explored instances carried state outside the database, so what was covered
 		// cannot be trusted. Not a verdict on this property.
-		fmt.Fprintf(os.Stderr, "HARNESS-NONDETERMINISM: %d discrepancies seen during the exploration do not reproduce on fresh applications and none does; the application keeps state outside its database (see C01)\n", unconfirmed)
+		fmt.Fprintf(os.Stderr, "HARNESS-NONDETERMINISM: %d discrepancies seen during the exploration do not reproduce on fresh applications, %d explored states differ from their fresh replay, and no violation reproduces; the application keeps state outside its database (see C01) or the harness is broken\n", unconfirmed, mismatches)
 		ev.WallS = time.Since(t0).Seconds()
 		WriteEvidence(ev)
 		return 2
